@@ -852,7 +852,13 @@ impl<'a, 'ast> Visit<'ast> for Ed<'a> {
             if let Some(n) = hit {
                 self.caughts_used[n] += 1;
                 let cr = c.span().byte_range();
-                self.push(cr.start, cr.end, "vx_unguarded_user_code()", "E20-unguarded-user-code", true);
+                // `@@caught ~text => oracle ||| unguarded`: the second text stands for the call when it is
+                // reached OUTSIDE catch_unwind (a typed stand-in with `requires false`)
+                let repl = match self.dir.caughts[n].1.split_once("|||") {
+                    Some((_, u)) => u.trim().to_string(),
+                    None => "vx_unguarded_user_code()".to_string(),
+                };
+                self.push(cr.start, cr.end, repl, "E20-unguarded-user-code", true);
                 return;
             }
         }
@@ -868,7 +874,7 @@ impl<'a, 'ast> Visit<'ast> for Ed<'a> {
                         if let Some(n) = hit {
                             self.caughts_used[n] += 1;
                             let es = e.span().byte_range();
-                            let repl = self.dir.caughts[n].1.clone();
+                            let repl = caught_guarded(&self.dir.caughts[n].1);
                             self.push(es.start, es.end, repl, "E20-caught-user-code", true);
                             return;
                         }
@@ -883,7 +889,7 @@ impl<'a, 'ast> Visit<'ast> for Ed<'a> {
                         if let Some(n) = hit {
                             self.caughts_used[n] += 1;
                             let es = e.span().byte_range();
-                            let repl = format!("({{ vx_unguarded_user_code::<()>(); {} }})", self.dir.caughts[n].1);
+                            let repl = format!("({{ vx_unguarded_user_code::<()>(); {} }})", caught_guarded(&self.dir.caughts[n].1));
                             self.push(es.start, es.end, repl, "E20-unguarded-user-code", true);
                             return;
                         }
@@ -896,7 +902,7 @@ impl<'a, 'ast> Visit<'ast> for Ed<'a> {
                             if body.contains(anchor.trim_start_matches('~').trim()) {
                                 self.caughts_used[n] += 1;
                                 let es = e.span().byte_range();
-                                self.push(es.start, es.end, repl.clone(), "E20-caught-user-code", true);
+                                self.push(es.start, es.end, caught_guarded(repl), "E20-caught-user-code", true);
                                 return;
                             }
                         }
@@ -2396,6 +2402,13 @@ fn check_used(ed: &Ed, d: &FnDir, ctx: &str) {
 }
 
 /// anchor `abc` = statement text starts with `abc`; anchor `~abc` = statement text contains `abc`
+fn caught_guarded(repl: &str) -> String {
+    match repl.split_once("|||") {
+        Some((g, _)) => g.trim().to_string(),
+        None => repl.to_string(),
+    }
+}
+
 fn anchor_match(text: &str, anchor: &str) -> bool {
     let anchor = anchor.strip_prefix('>').unwrap_or(anchor);
     let anchor = anchor.strip_prefix('<').unwrap_or(anchor);
